@@ -255,7 +255,7 @@ func (H) Execute(scAny any, cfg simrt.Config, st *core.Stats) (*simrt.Outcome, *
 		return out, v
 	}
 	if out.Truncated {
-		return out, nil
+		return out, core.NoProgress(out)
 	}
 	if out.Stuck {
 		return out, &core.Violation{Signature: "deadlock", Detail: "run ended with tasks blocked forever: " + strings.Join(out.StuckTasks, ", ")}
